@@ -114,6 +114,9 @@ theorem consume_eq (f : F) (p : Bytes) (h : p.length = 188) : consume f p = .ok 
   · cases hh : hdrOk (rangeBytes p r) <;> cases us <;> cases b <;> cases hst : f.st <;>
       simp [headerFromBytes_eq, hh, ccOf] <;> split <;> rfl
 
+theorem consume_eq' (f : F) (p : Bytes) (h : p.length = 188) :
+    consume f p = .ok ((stepOf f p).1, (stepOf f p).2) := consume_eq f p h
+
 theorem consume_inv {f f' : F} {p : Bytes} {evs : List Ev} (h : p.length = 188)
     (hc : consume f p = .ok (f', evs)) : f' = (stepOf f p).1 ∧ evs = (stepOf f p).2 := by
   rw [consume_eq f p h] at hc
@@ -239,6 +242,9 @@ theorem run_eq (f : F) (ps : List Bytes) (h : ∀ p ∈ ps, p.length = 188) :
     have ih' := ih (stepOf f p).1 (fun q hq => h q (List.mem_cons_of_mem _ hq))
     simp only [run, consume_eq f p hp, R.ok_bind, ih', R.pure_eq, runPure]
 
+theorem run_eq' (f : F) (ps : List Bytes) (h : ∀ p ∈ ps, p.length = 188) :
+    run f ps = .ok ((runPure f ps).1, (runPure f ps).2) := run_eq f ps h
+
 theorem run_inv {f f' : F} {ps : List Bytes} {evss : List (List Ev)} (h : ∀ p ∈ ps, p.length = 188)
     (hr : run f ps = .ok (f', evss)) : f' = (runPure f ps).1 ∧ evss = (runPure f ps).2 := by
   rw [run_eq f ps h] at hr
@@ -352,5 +358,16 @@ scoped instance instDecEqR {α : Type} [DecidableEq α] : DecidableEq (R α)
   | .panic s, .panic t => if h : s = t then isTrue (h ▸ rfl) else isFalse (fun e => h (R.panic.inj e))
   | .ok _, .panic _ => isFalse (fun e => nomatch e)
   | .panic _, .ok _ => isFalse (fun e => nomatch e)
+
+/-! ### concrete packets for the `decide` examples -/
+
+/-- a concrete transport packet: sync byte, flags byte `b1` (0x40 = unit start), PID low byte 0,
+byte 3 `b3` (0x10 = payload flag, 0x20 = adaptation-field flag, low nibble = continuity counter),
+the bytes `pay` following the 4-byte header, then `ff` stuffing up to 188 bytes -/
+def mkPkt (b1 b3 : UInt8) (pay : List UInt8) : Bytes :=
+  [0x47, b1, 0x00, b3] ++ pay ++ List.replicate (184 - pay.length) 0xff
+
+/-- a PES header start: `00 00 01`, stream id `e0`, length 0 -/
+def pesStart : List UInt8 := [0, 0, 1, 0xe0, 0, 0]
 
 end Ts.Lemmas.C08
